@@ -278,6 +278,21 @@ func checkC16(c *Ctx, r *Report) {
 		}
 		// recognised-form checks of the response arithmetic (skipped when the form is absent)
 		r.Rule("C16-reply", 3, "response computation and reply lines")
+		{
+			pr := newProver(c)
+			o := r.Add("C16-reply", where, "response is at least eight characters long", c.pos(fn.Pos()))
+			all := true
+			for _, ret := range returnsOf(fn) {
+				if !pr.LE(nil, false, 8, resOf(ret, 0), true, 0, ret) {
+					all = false
+				}
+			}
+			if all {
+				o.OK("len(response) >= 8 is established on every return (zero padding cannot be lost for small digest values)")
+			} else {
+				o.Bad("the response is not proven to have at least eight characters: for digest values below 10,000,000 (about 1 %% of challenge/password pairs) the leading zeros are lost and the login fails")
+			}
+		}
 		for _, ci := range callsTo(fn, false, "fmt.Sprintf") {
 			if s, ok := constString(ci.Common().Args[0]); ok {
 				verbs, tail := parseVerbs(s)
